@@ -1,5 +1,5 @@
 import MsqProofs.Lemmas.ParseWNSkel
-import MsqProofs.Lemmas.ParseWNCov
+import MsqProofs.Lemmas.ParseWNCovStmt2
 import MsqProofs.Lemmas.ParseMono
 import MsqModel.Parse.Entry
 import MsqModel.Driver.ShowVal
@@ -32,10 +32,11 @@ ParseWN0.lean (DEVIATION 1–5); `C02.binary_bang_witness` / `reserved_word_colu
 * `C02.select_exprs_derive`, `subquery_exprs_derive`, `window_items_derive`, `where_clause_derives` … : the opaque leaves opened — every
   expression at a clause position of a parsed SELECT (recursively through FROM sub-queries, WITH tables, set operations) is derived
   by `Derives` from a contiguous run of tokens inside the cursor (`WNG.Cov`; MsqProofs/Lemmas/ParseWNCov*.lean, 42 functions).
+* `C02.statements_exprs_derive`, `statements_text_exprs_derive`, `partition_spec_derives`, `column_definition_derives`: the same for every
+  statement of a script (`parse_statements`): partition specs, column defaults, VALUES rows, UPDATE … SET values, … (`WNG.exprsStmt`).
 What is NOT here: uniqueness of `Derives` as a whole (see `derives_not_unique_witness`: WHICH tokens are elements is not determined
-where an operator sign is read as a column name), the keyword-predicate level in the skeletons, a SELECT GRAMMAR (which clause a token run belongs to is C03's
-T-parse, not stated here), the statement level (UPDATE SET values, INSERT VALUES rows, partition specs, column defaults: each is a
-call of `pOr` / `pCompute`, to which `parse_derives` / `parse_derives_compute` apply, but the accounting is not formalised).
+where an operator sign is read as a column name), the keyword-predicate level in the skeletons, a SELECT / statement GRAMMAR (which clause a token run belongs
+to is C03's T-parse, not stated here).
 -/
 set_option linter.unusedVariables false
 open Lex PM Ast WNG
@@ -230,6 +231,37 @@ theorem order_by_clause_derives (d : Gen.D) (f : Nat) (ts : List Tok) (v : Optio
     (h : pOrderByOpt d f ts = .ok (v, rest)) : ∀ e ∈ oiEs v, Cov d ts e := (cv_all d f).pOrderByOpt ts ts v rest .refl h
 theorem join_clause_derives (d : Gen.D) (f : Nat) (ts : List Tok) (v : Join) (rest : List Tok)
     (h : pJoin d f ts = .ok (v, rest)) : ∀ e ∈ exprsJ v, Cov d ts e := (cv_all d f).pJoin ts ts v rest .refl h
+
+/-! ### every expression contained in a parsed STATEMENT (`parse_statements`)
+
+`WNG.exprsStmt s`: the expressions of `s` — everything `exprsQ` collects for the queries inside (SELECT, INSERT … SELECT, CREATE TABLE …
+AS, WITH tables of INSERT / UPDATE), plus partition specifications (INSERT, ANALYZE, ALTER … ADD / DROP PARTITION), VALUES rows,
+UPDATE … SET values, WHERE / ORDER BY of UPDATE and DELETE, SHOW COLUMNS … WHERE, and of every column definition (CREATE TABLE
+columns and PARTITIONED BY columns, ALTER … ADD / MODIFY / CHANGE) its type parameters, DEFAULT, ON UPDATE and GENERATED ALWAYS AS
+expressions. -/
+
+/-- **C02 at every expression position of every statement of a script** (token level) -/
+theorem statements_exprs_derive (d : Gen.D) (f : Nat) (ts : List Tok) (ss : List Stmt) (h : pStatements d f ts = .ok ss) :
+    ∀ s ∈ ss, ∀ e ∈ exprsStmt s, Cov d ts e :=
+  cv_statementsLoop _ [] ts ss .refl (fun s hs => by cases hs) h
+/-- one statement (`pStatement`: the body of the loop of `parse_statements`) -/
+theorem statement_exprs_derive (d : Gen.D) (f : Nat) (ts : List Tok) (s : Stmt) (rest : List Tok) (h : pStatement d f ts = .ok (s, rest)) :
+    ∀ e ∈ exprsStmt s, Cov d ts e := cv_pStatement .refl h
+/-- the same from the TEXT: `SQLParser.parse_statements(text, sql_type)` -/
+theorem statements_text_exprs_derive (d : Gen.D) (text : List Char) (ss : List Stmt) (h : parseStatementsText d text = .ok ss) :
+    ∃ ts, lex Gen.cfgS (dialectPre d text) = .ok ts ∧ ∀ s ∈ ss, ∀ e ∈ exprsStmt s, Cov d ts e := by
+  unfold parseStatementsText at h
+  split at h
+  · cases h
+  · rename_i ts hl
+    exact ⟨ts, hl, statements_exprs_derive d _ ts ss h⟩
+/-- partition specifications: `PARTITION (a = 1, b)` — the comparison node is built outside the expression block
+(`_parse_partition_expression`), from two compute-level operands: it derives at level 10 -/
+theorem partition_spec_derives (d : Gen.D) (f : Nat) (already : Bool) (ts : List Tok) (v : List Expr) (rest : List Tok)
+    (h : pPartition d f already ts = .ok (v, rest)) : ∀ e ∈ v, Cov d ts e := cv_pPartition .refl h
+/-- column definitions: type parameters, DEFAULT, ON UPDATE, GENERATED ALWAYS AS -/
+theorem column_definition_derives (d : Gen.D) (f : Nat) (ts : List Tok) (v : DefCol) (rest : List Tok)
+    (h : pDefCol d f ts = .ok (v, rest)) : ∀ e ∈ exprsDC v, Cov d ts e := (cv_pDefCol .refl h).covL
 
 /-! ### at text level: the public entry point, lexer included -/
 theorem W02.entry_or : entries.find? (·.1 == "logical_or_level_expression") = some ("logical_or_level_expression", exprEntry pOr) := by
